@@ -3,6 +3,7 @@ and provenance rules see the same flat control flow whether or not a maintainer 
 function into helpers. Only synchronous, non-recursive helpers are inlined; the result is a new
 Body over merged JSON (locals and blocks of the callee are appended and renumbered)."""
 import copy
+import re
 from .facts import Body
 
 
@@ -106,6 +107,327 @@ def inline_calls(facts, body, should_inline, max_depth=3):
             j["blocks"].extend(cj["blocks"])
             progressed = True
             did = True
+        if not progressed:
+            break
+    if not did:
+        return body
+    nb = Body(j, facts)
+    nb.inlined = True
+    return nb
+
+
+# ---------------------------------------------------------------------------------------------
+# awaited local async fns, directly called local closures, block_on(async block)
+
+def _place_of(op):
+    if not isinstance(op, dict):
+        return None
+    return op.get("move") or op.get("copy")
+
+
+def _single_assign(j, defs, l):
+    ds = defs.get(l, [])
+    return ds[0] if len(ds) == 1 else None
+
+
+def _defs_of(j):
+    """local -> [(bb, 'assign'|'call', stmt-or-term)] for whole-local writes"""
+    d = {}
+    for bi, blk in enumerate(j["blocks"]):
+        for st in blk["stmts"]:
+            if st["k"] == "assign" and not st["dst"]["p"]:
+                d.setdefault(st["dst"]["l"], []).append((bi, "assign", st))
+        t = blk["term"]
+        if t["k"] == "call" and not t["dst"]["p"]:
+            d.setdefault(t["dst"]["l"], []).append((bi, "call", t))
+    return d
+
+
+def _trace_value(j, defs, op, depth=0):
+    """follow a future / closure value back through moves, `&mut x`, Pin::new_unchecked and into_future to the
+    statement or call that created it: ('call', bb, term) | ('agg', bb, stmt) | None"""
+    p = _place_of(op)
+    if p is None or depth > 12:
+        return None
+    if [e for e in p["p"] if e != "*"]:
+        return None
+    d = _single_assign(j, defs, p["l"])
+    if d is None:
+        return None
+    bi, kind, x = d
+    if kind == "call":
+        f = x["func"]
+        nm = f.get("resolved") or f.get("def") or ""
+        if re.search(r"::into_future$|Pin::<.*>::new_unchecked$|Pin::<.*>::new$", nm) and x["args"]:
+            return _trace_value(j, defs, x["args"][0], depth + 1)
+        return ("call", bi, x)
+    rv = x["rv"]
+    if rv["k"] in ("use", "cast"):
+        return _trace_value(j, defs, rv["op"], depth + 1)
+    if rv["k"] in ("ref", "rawptr"):
+        return _trace_value(j, defs, {"copy": rv["place"]}, depth + 1)
+    if rv["k"] == "agg":
+        return ("agg", bi, x)
+    return None
+
+
+def _rewrite_env(blk_list, env_local, upvar_locals):
+    """in the (already renumbered) callee blocks replace `env.k...` by the local bound to capture k"""
+    def fix(p):
+        if p["l"] != env_local:
+            return
+        elems = p["p"]
+        i = 0
+        while i < len(elems) and elems[i] == "*":
+            i += 1
+        if i < len(elems) and isinstance(elems[i], dict) and "f" in elems[i] and elems[i]["f"] in upvar_locals:
+            p["l"] = upvar_locals[elems[i]["f"]]
+            p["p"] = elems[i + 1:]
+
+    def fix_op(o):
+        q = _place_of(o)
+        if q is not None:
+            fix(q)
+
+    for blk in blk_list:
+        for st in blk["stmts"]:
+            fix(st["dst"])
+            if st["k"] != "assign":
+                continue
+            rv = st["rv"]
+            k = rv["k"]
+            if k in ("use", "cast", "repeat"):
+                fix_op(rv["op"])
+            elif k in ("ref", "rawptr", "discr"):
+                fix(rv["place"])
+            elif k == "bin":
+                fix_op(rv["a"]); fix_op(rv["b"])
+            elif k == "un":
+                fix_op(rv["a"])
+            elif k == "agg":
+                for o in rv["ops"]:
+                    fix_op(o)
+        t = blk["term"]
+        k = t["k"]
+        if k == "switch":
+            fix_op(t["discr"])
+        elif k == "call":
+            if "indirect" in t["func"]:
+                fix_op(t["func"]["indirect"])
+            for a in t["args"]:
+                fix_op(a)
+            fix(t["dst"])
+        elif k == "drop":
+            fix(t["place"])
+        elif k == "assert":
+            fix_op(t["cond"])
+        elif k == "yield":
+            fix_op(t["value"])
+
+
+def _creation_ops(facts, fn_body, child_id):
+    """operands of the aggregate that creates coroutine / closure `child_id` in `fn_body`"""
+    for blk in fn_body.j["blocks"]:
+        for st in blk["stmts"]:
+            if st["k"] == "assign" and st["rv"]["k"] == "agg" and st["rv"].get("def") == child_id:
+                return st["rv"]["ops"]
+    return None
+
+
+def _root_param(fn_body, op, depth=0):
+    p = _place_of(op)
+    if p is None or p["p"] or depth > 6:
+        return None
+    l = p["l"]
+    if 1 <= l <= fn_body.arg_count and not fn_body.defs.get(l):
+        return l
+    ds = fn_body.defs.get(l, [])
+    if len(ds) == 1 and ds[0][1] == "assign" and ds[0][2]["rv"]["k"] == "use":
+        return _root_param(fn_body, ds[0][2]["rv"]["op"], depth + 1)
+    return None
+
+
+def _splice(j, cj, upvar_ops, at_block, ret_stmt, ret_target, arg_binds=()):
+    """append callee blocks/locals (cj) to j; bind captures (index -> operand in j's frame) and parameters
+    (callee local -> operand) in block `at_block`, whose terminator becomes a goto to the callee's entry;
+    every callee `return` becomes ret_stmt(callee _0 local) + goto ret_target. Returns nothing."""
+    loff = len(j["locals"])
+    boff = len(j["blocks"])
+    for blk in cj["blocks"]:
+        _remap_block(blk, loff, boff)
+    j["locals"].extend(cj["locals"])
+    upl = {}
+    stmts = j["blocks"][at_block]["stmts"]
+    line = j["blocks"][at_block]["term"].get("line")
+    for k, o in sorted(upvar_ops.items()):
+        j["locals"].append({"ty": "?capture", "name": None})
+        ul = len(j["locals"]) - 1
+        upl[k] = ul
+        stmts.append({"k": "assign", "dst": {"l": ul, "p": []}, "rv": {"k": "use", "op": copy.deepcopy(o)}, "line": line, "inlined_arg": True})
+    for (cl, o) in arg_binds:
+        stmts.append({"k": "assign", "dst": {"l": cl + loff, "p": []}, "rv": {"k": "use", "op": copy.deepcopy(o)}, "line": line, "inlined_arg": True})
+    _rewrite_env(cj["blocks"], 1 + loff, upl)
+    for blk in cj["blocks"]:
+        if blk["term"]["k"] == "return":
+            blk["stmts"].append(ret_stmt(loff, blk["term"].get("line")))
+            blk["term"] = {"k": "goto", "target": ret_target, "line": blk["term"].get("line")}
+    j["blocks"].extend(cj["blocks"])
+    return boff
+
+
+def inline_async(facts, body, should_inline, max_rounds=4, max_blocks=6000):
+    """In `body`, replace (a) the poll of an awaited local async fn, (b) block_on(<local async block / fn>) and
+    (c) a direct call of a local closure by the callee's blocks. The awaiting loop disappears: the callee's
+    return writes Poll::Ready(value) and continues at the Ready arm."""
+    j = copy.deepcopy(body.j)
+    did = False
+    for _round in range(max_rounds):
+        progressed = False
+        defs = _defs_of(j)
+        nblocks = len(j["blocks"])
+        if nblocks > max_blocks:
+            break
+        for bi in range(nblocks):
+            t = j["blocks"][bi]["term"]
+            if t["k"] != "call" or t.get("target") is None:
+                continue
+            f = t["func"]
+            name = f.get("resolved") or f.get("def") or ""
+            cb = facts.by_id.get(name) if name else None
+            # (a) poll of a local coroutine body: `path::{closure#0}(pin, cx)`
+            if cb is not None and cb.kind.startswith("coroutine") and len(t["args"]) == 2 and cb.id != body.id:
+                parent = facts.by_id.get(cb.parent) if cb.parent else None
+                src = _trace_value(j, defs, t["args"][0])
+                if parent is None or src is None or not should_inline(parent):
+                    continue
+                upvar_ops = {}
+                at = None
+                if src[0] == "call" and (src[2]["func"].get("resolved") or src[2]["func"].get("def")) == parent.id and parent.kind in ("Fn", "AssocFn"):
+                    ops = _creation_ops(facts, facts.inlined.get(parent.id, parent) if hasattr(facts, "inlined") else parent, cb.id)
+                    if ops is None:
+                        continue
+                    okb = True
+                    for k, o in enumerate(ops):
+                        pj = _root_param(facts.inlined.get(parent.id, parent) if hasattr(facts, "inlined") else parent, o)
+                        if pj is None or pj - 1 >= len(src[2]["args"]):
+                            okb = False
+                            break
+                        upvar_ops[k] = src[2]["args"][pj - 1]
+                    if not okb:
+                        continue
+                    at = src[1]
+                elif src[0] == "agg" and src[2]["rv"].get("def") == cb.id:
+                    upvar_ops = {k: o for k, o in enumerate(src[2]["rv"]["ops"])}
+                    at = None   # bind at the poll (the aggregate stays where it is)
+                else:
+                    continue
+                sw = j["blocks"][t["target"]]
+                ready = None
+                if sw["term"]["k"] == "switch":
+                    for v, tg in sw["term"]["arms"]:
+                        if v == 0:
+                            ready = tg
+                if ready is None:
+                    continue
+                dst = copy.deepcopy(t["dst"])
+
+                def ret_stmt(loff, line, dst=dst):
+                    return {"k": "assign", "dst": copy.deepcopy(dst), "line": line, "inlined_ret": True,
+                            "rv": {"k": "agg", "agg": "adt", "adt": "std::task::Poll", "variant": "Ready", "variant_idx": 0,
+                                   "ops": [{"move": {"l": loff, "p": []}}], "fields": ["0"]}}
+                cj = copy.deepcopy((facts.inlined.get(cb.id, cb) if hasattr(facts, "inlined") else cb).j)
+                if at is not None:
+                    # captures are bound where the future was created; the creating call becomes a plain goto
+                    ct = j["blocks"][at]["term"]
+                    tmp_stmts = j["blocks"][at]["stmts"]
+                    line = ct.get("line")
+                    j["locals"].extend([])
+                    # bind into fresh locals now, splice later at the poll
+                    bound = {}
+                    for k, o in sorted(upvar_ops.items()):
+                        j["locals"].append({"ty": "?capture", "name": None})
+                        ul = len(j["locals"]) - 1
+                        tmp_stmts.append({"k": "assign", "dst": {"l": ul, "p": []}, "rv": {"k": "use", "op": copy.deepcopy(o)}, "line": line, "inlined_arg": True})
+                        bound[k] = {"move": {"l": ul, "p": []}}
+                    j["blocks"][at]["term"] = {"k": "goto", "target": ct["target"], "line": line, "inlined_call": parent.id}
+                    upvar_ops = bound
+                boff = _splice(j, cj, upvar_ops, bi, ret_stmt, ready, arg_binds=[(2, t["args"][1])] if cb.arg_count >= 2 else [])
+                j["blocks"][bi]["term"] = {"k": "goto", "target": boff, "line": t.get("line"), "inlined_call": cb.id}
+                progressed = did = True
+                defs = _defs_of(j)
+                continue
+            # (b) block_on(future)
+            if re.search(r"task::block_on$|executor::block_on$|task::Builder::blocking$", name) and t["args"]:
+                src = _trace_value(j, defs, t["args"][-1])
+                cbid = None
+                upvar_ops = None
+                at = None
+                if src is not None and src[0] == "agg" and src[2]["rv"].get("agg") in ("coroutine",):
+                    cbid = src[2]["rv"].get("def")
+                    upvar_ops = {k: o for k, o in enumerate(src[2]["rv"]["ops"])}
+                elif src is not None and src[0] == "call":
+                    pid = src[2]["func"].get("resolved") or src[2]["func"].get("def")
+                    parent = facts.by_id.get(pid) if pid else None
+                    if parent is not None and parent.kind in ("Fn", "AssocFn"):
+                        kids = [c for c in facts.children.get(parent.id, []) if c.kind.startswith("coroutine")]
+                        if len(kids) == 1:
+                            ops = _creation_ops(facts, parent, kids[0].id)
+                            if ops is not None:
+                                m = {}
+                                for k, o in enumerate(ops):
+                                    pj = _root_param(parent, o)
+                                    if pj is None or pj - 1 >= len(src[2]["args"]):
+                                        m = None
+                                        break
+                                    m[k] = src[2]["args"][pj - 1]
+                                if m is not None:
+                                    cbid, upvar_ops = kids[0].id, m
+                cb2 = facts.by_id.get(cbid) if cbid else None
+                if cb2 is None or cb2.id == body.id or not should_inline(cb2):
+                    continue
+                dst = copy.deepcopy(t["dst"])
+
+                def ret_stmt2(loff, line, dst=dst):
+                    return {"k": "assign", "dst": copy.deepcopy(dst), "line": line, "inlined_ret": True,
+                            "rv": {"k": "use", "op": {"move": {"l": loff, "p": []}}}}
+                cj = copy.deepcopy(cb2.j)
+                boff = _splice(j, cj, upvar_ops, bi, ret_stmt2, t["target"])
+                j["blocks"][bi]["term"] = {"k": "goto", "target": boff, "line": t.get("line"), "inlined_call": cb2.id}
+                progressed = did = True
+                defs = _defs_of(j)
+                continue
+            # (c) direct call of a local closure value
+            if re.search(r"FnOnce<.*>>::call_once$|Fn<.*>>::call$|FnMut<.*>>::call_mut$|::call_once$|::call_mut$|ops::Fn.*::call$", name) or (cb is not None and cb.kind.startswith("closure")):
+                if not t["args"]:
+                    continue
+                src = _trace_value(j, defs, t["args"][0])
+                if src is None or src[0] != "agg" or src[2]["rv"].get("agg") != "closure":
+                    continue
+                cb3 = facts.by_id.get(src[2]["rv"].get("def"))
+                if cb3 is None or cb3.id == body.id or not should_inline(cb3):
+                    continue
+                upvar_ops = {k: o for k, o in enumerate(src[2]["rv"]["ops"])}
+                binds = []
+                if len(t["args"]) >= 2 and cb3.arg_count >= 2:
+                    tp = _place_of(t["args"][1])
+                    td = _single_assign(j, defs, tp["l"]) if tp is not None and not tp["p"] else None
+                    if td is not None and td[1] == "assign" and td[2]["rv"]["k"] == "agg" and td[2]["rv"].get("agg") == "tuple":
+                        for i, o in enumerate(td[2]["rv"]["ops"][: cb3.arg_count - 1]):
+                            binds.append((2 + i, o))
+                    elif tp is not None:
+                        for i in range(cb3.arg_count - 1):
+                            binds.append((2 + i, {"move": {"l": tp["l"], "p": tp["p"] + [{"f": i}]}}))
+                dst = copy.deepcopy(t["dst"])
+
+                def ret_stmt3(loff, line, dst=dst):
+                    return {"k": "assign", "dst": copy.deepcopy(dst), "line": line, "inlined_ret": True,
+                            "rv": {"k": "use", "op": {"move": {"l": loff, "p": []}}}}
+                cj = copy.deepcopy(cb3.j)
+                boff = _splice(j, cj, upvar_ops, bi, ret_stmt3, t["target"], arg_binds=binds)
+                j["blocks"][bi]["term"] = {"k": "goto", "target": boff, "line": t.get("line"), "inlined_call": cb3.id}
+                progressed = did = True
+                defs = _defs_of(j)
+                continue
         if not progressed:
             break
     if not did:
